@@ -584,4 +584,121 @@ theorem flatten_maskKvs : ∀ (kvs : List (String × Node)) (S : List PSeg → B
       simp only [flattenKvs, h1, h2]
 end
 
+/-! ### 5. the fold -/
+
+/-- the flattened entry of a structured leaf path -/
+def pairOf (q : List Comp × Scalar) : String × Scalar := (renderFrom "" q.1, q.2)
+
+theorem flatten_pairOf (d : AMap Node) : flatten d = (lpKvs d).map pairOf := flatten_lp d
+
+/-- `S ∪ {steps q | q ∈ τ}` -/
+def addPs (S : List PSeg → Bool) (τ : List (List Comp × Scalar)) : List PSeg → Bool :=
+  τ.foldl (fun S q => addP S (steps q.1)) S
+
+theorem addPs_mono : ∀ (τ : List (List Comp × Scalar)) (S : List PSeg → Bool) (st : List PSeg),
+    S st = true → addPs S τ st = true
+  | [], _, _, h => h
+  | q :: τ, S, st, h => by
+    simp only [addPs, List.foldl_cons]
+    exact addPs_mono τ _ st (by simp [addP, h])
+
+theorem addPs_mem : ∀ (τ : List (List Comp × Scalar)) (S : List PSeg → Bool) (q : List Comp × Scalar),
+    q ∈ τ → addPs S τ (steps q.1) = true
+  | [], _, _, h => by cases h
+  | q0 :: τ, S, q, h => by
+    simp only [addPs, List.foldl_cons]
+    simp only [List.mem_cons] at h
+    rcases h with rfl | h
+    · exact addPs_mono τ _ _ (by simp [addP])
+    · exact addPs_mem τ _ q h
+
+/-- ONE insertion at document level -/
+theorem addValueAt_mask (d : AMap Node) (hv : (Node.cont d).Valid) (hs : (Node.cont d).SafeKeys)
+    (S : List PSeg → Bool) (q : List Comp × Scalar) (hq : q ∈ lpKvs d) :
+    addValueAt (maskKvs S d) (renderFrom "" q.1) (.leaf q.2) = maskKvs (addP S (steps q.1)) d := by
+  obtain ⟨hsafe, _, hne⟩ := lpKvs_spec d d hv hs (fun p hp => hp) q hq
+  have hall : ∀ x ∈ d, x.2.WF := by
+    cases hv.1 with
+    | cont _ hall => exact hall
+  obtain ⟨k, r, hk, _, he⟩ := maskKvs_step d S (steps q.1) q.2 hv.sorted hall (mem_spKvs_of_lpKvs hq)
+  cases hq1 : q.1 with
+  | nil => exact absurd hq1 hne
+  | cons c cs =>
+    rw [hq1] at hsafe hk he
+    have h1 := addAtSegs_setN (c :: cs) (maskKvs S d) (.leaf q.2) (by simp) hsafe
+    rw [hk] at h1
+    simp only [setN, contOf_some_cont] at h1
+    rw [he]
+    unfold addValueAt
+    rw [splitPath_renderFrom c cs hsafe]
+    exact Node.cont.inj h1
+
+theorem fold_mask (d : AMap Node) (hv : (Node.cont d).Valid) (hs : (Node.cont d).SafeKeys) :
+    ∀ (τ : List (List Comp × Scalar)) (S : List PSeg → Bool), (∀ q ∈ τ, q ∈ lpKvs d) →
+      (τ.map pairOf).foldl (fun d p => addValueAt d p.1 (.leaf p.2)) (maskKvs S d) = maskKvs (addPs S τ) d
+  | [], _, _ => rfl
+  | q :: τ, S, h => by
+    simp only [List.map_cons, List.foldl_cons, pairOf, addPs]
+    rw [addValueAt_mask d hv hs S q (h q (List.mem_cons_self ..))]
+    exact fold_mask d hv hs τ _ (fun x hx => h x (List.mem_cons_of_mem _ hx))
+
+theorem exists_map_of_subset {α β : Type} (f : α → β) (l : List α) : ∀ (σ : List β), (∀ x ∈ σ, x ∈ l.map f) →
+    ∃ τ : List α, σ = τ.map f ∧ ∀ q ∈ τ, q ∈ l
+  | [], _ => ⟨[], rfl, by intro q hq; cases hq⟩
+  | x :: σ, h => by
+    obtain ⟨τ, hτ, hmem⟩ := exists_map_of_subset f l σ (fun y hy => h y (List.mem_cons_of_mem _ hy))
+    obtain ⟨a, ha, hfa⟩ := List.mem_map.mp (h x (List.mem_cons_self ..))
+    refine ⟨a :: τ, by simp [hfa, hτ], ?_⟩
+    intro q hq
+    simp only [List.mem_cons] at hq
+    rcases hq with rfl | hq
+    · exact ha
+    · exact hmem q hq
+
+theorem parse_compNames (l : List Comp) (hl : ∀ x ∈ l, SafeKey x.1) :
+    (l.map (fun x => String.ofList (compStr x))).map parseSeg = l := by
+  rw [List.map_map]
+  conv => rhs; rw [← List.map_id l]
+  apply List.map_congr_left
+  intro x hx
+  simp [parseSeg_compStr (hl x hx)]
+
+/-- rendering is injective on path-safe component lists -/
+theorem renderFrom_inj {a b : List Comp} (ha : a ≠ []) (hb : b ≠ []) (hsa : ∀ x ∈ a, SafeKey x.1)
+    (hsb : ∀ x ∈ b, SafeKey x.1) (h : renderFrom "" a = renderFrom "" b) : a = b := by
+  cases a with
+  | nil => exact absurd rfl ha
+  | cons c cs =>
+    cases b with
+    | nil => exact absurd rfl hb
+    | cons e es =>
+      have h2 := congrArg splitPath h
+      rw [splitPath_renderFrom c cs hsa, splitPath_renderFrom e es hsb] at h2
+      have h3 := congrArg (List.map parseSeg) h2
+      rw [parse_compNames _ hsa, parse_compNames _ hsb] at h3
+      exact h3
+
+/-- the rebuild theorem for any list of pairs that covers the flattened view (duplicates allowed) -/
+theorem rebuild_cover (d : AMap Node) (hv : (Node.cont d).Valid) (hs : (Node.cont d).SafeKeys)
+    (hi : ItemsHaveScalars d) (σ : List (String × Scalar))
+    (h1 : ∀ x ∈ σ, x ∈ flatten d) (h2 : ∀ x ∈ flatten d, x ∈ σ) : flatten (rebuild σ) = flatten d := by
+  rw [flatten_pairOf] at h1 h2
+  obtain ⟨τ, rfl, hτ⟩ := exists_map_of_subset pairOf (lpKvs d) σ h1
+  have hfold := fold_mask d hv hs τ (fun _ => false) hτ
+  rw [maskKvs_empty] at hfold
+  unfold rebuild
+  rw [hfold]
+  have hall : ∀ q ∈ d, q.2.ItemsHaveScalars := by
+    cases hi with
+    | cont hall => exact hall
+  apply flatten_maskKvs d _ "" hall
+  intro s hsm
+  obtain ⟨q, hq, hst, _⟩ := mem_lpKvs_of_spKvs hsm
+  obtain ⟨q', hq', he⟩ := List.mem_map.mp (h2 (pairOf q) (List.mem_map.mpr ⟨q, hq, rfl⟩))
+  obtain ⟨hsafe, _, hne⟩ := lpKvs_spec d d hv hs (fun p hp => hp) q hq
+  obtain ⟨hsafe', _, hne'⟩ := lpKvs_spec d d hv hs (fun p hp => hp) q' (hτ q' hq')
+  have hpath : q'.1 = q.1 := renderFrom_inj hne' hne hsafe' hsafe (Prod.mk.inj he).1
+  rw [← hst, ← hpath]
+  exact addPs_mem τ _ q' hq'
+
 end Ytk
